@@ -117,18 +117,45 @@ impl SymExpr {
                 }
             }
             Self::Neg(x) => {
-                if x.is_positive() {
-                    (i32::MIN, -1)
+                let (min, max) = x.range();
+                (max.saturating_neg(), min.saturating_neg())
+            }
+            Self::Add(lhs, rhs) => {
+                let (lhs_min, lhs_max) = lhs.range();
+                let (rhs_min, rhs_max) = rhs.range();
+                (
+                    lhs_min.saturating_add(rhs_min),
+                    lhs_max.saturating_add(rhs_max),
+                )
+            }
+            Self::Mul(lhs, rhs) => {
+                let (lhs_min, lhs_max) = lhs.range();
+                let (rhs_min, rhs_max) = rhs.range();
+                if lhs_min >= 0 && rhs_min >= 0 {
+                    (
+                        lhs_min.saturating_mul(rhs_min),
+                        lhs_max.saturating_mul(rhs_max),
+                    )
                 } else {
                     (i32::MIN, i32::MAX)
                 }
             }
-            Self::Add(lhs, rhs)
-            | Self::Mul(lhs, rhs)
-            | Self::Max(lhs, rhs)
-            | Self::Min(lhs, rhs)
-            | Self::Div(lhs, rhs)
-            | Self::DivCeil(lhs, rhs) => {
+            Self::Div(lhs, rhs) | Self::DivCeil(lhs, rhs) => {
+                // The magnitude of a quotient never exceeds the magnitude of
+                // the dividend. If the divisor is positive, the quotient also
+                // has the same sign as the dividend (or is zero).
+                let (lhs_min, lhs_max) = lhs.range();
+                let (rhs_min, _rhs_max) = rhs.range();
+                if rhs_min >= 0 {
+                    (lhs_min.min(0), lhs_max.max(0))
+                } else {
+                    (
+                        lhs_min.min(lhs_max.saturating_neg()),
+                        lhs_max.max(lhs_min.saturating_neg()),
+                    )
+                }
+            }
+            Self::Max(lhs, rhs) | Self::Min(lhs, rhs) => {
                 let (lhs_min, lhs_max) = lhs.range();
                 let (rhs_min, rhs_max) = rhs.range();
                 (lhs_min.min(rhs_min), lhs_max.max(rhs_max))
